@@ -88,24 +88,18 @@ class Vncdo:
         self.factory = None
         outer = self
 
-        class FakeEndpoint:
-            """stands for HostnameEndpoint / UNIXClientEndpoint: the REAL client.factory_connect runs (its errback glue included)"""
-
-            def __init__(self, reactor_, host, port=None, *a, **k):
-                self.host, self.port = host, port
-
-            def connect(self, factory):
-                self.d = defer.Deferred()
-                outer.connects.append((factory, self.host, self.port, None))
-                outer.conn_deferred = self.d
-                return self.d
-        patches = [mock.patch.object(vcommand, "reactor", self.reactor), mock.patch.object(vclient, "reactor", self.reactor),
-                   mock.patch.object(vclient, "HostnameEndpoint", FakeEndpoint), mock.patch.object(vclient, "UNIXClientEndpoint", FakeEndpoint),
+        def on_connect(kind, args, factory):
+            # stands for HostnameEndpoint / UNIXClientEndpoint .connect: the REAL client.factory_connect runs (its errback glue included)
+            d = defer.Deferred()
+            outer.connects.append((factory, args[0] if args else None, args[1] if len(args) > 1 else None, None))
+            outer.conn_deferred = d
+            return d
+        patches = [use_reactor(self.reactor), fake_endpoints(on_connect),
                    mock.patch.object(vcommand, "VNCDoCLIFactory", AppFactory), mock.patch.object(sys, "argv", argv),
                    mock.patch.object(vcommand, "setup_logging", lambda o: None)]
         self._patches = patches
         for p_ in patches:
-            p_.start()
+            p_.__enter__()
         try:
             vcommand.vncdo()
         except SystemExit as e:
@@ -205,8 +199,9 @@ class Vncdo:
         if self.factory is not None:
             # a failed chain ends in a Failure nobody consumes; Twisted would report it at garbage collection (after the verdict)
             self.factory.deferred.addErrback(lambda f: None)
-        for p_ in self._patches:
-            p_.stop()
+        for p_ in reversed(self._patches):
+            p_.__exit__(None, None, None)
+        self._patches = []
 
 
 def cmd_tokens(words, files, delay):
